@@ -229,16 +229,28 @@ def build(ns, spec, override=None):
         in_chain = j < len(spec["plasmids"])
         for (label, parts, ftype) in _features_for(p, k, frng):
             locs = []
+            fz = frng.random()
             for (st, ln, sd) in parts:
                 st = (st + r) % n
                 if st + ln <= n:
-                    locs.append(FeatureLocation(st, st + ln, strand=sd))
+                    if fz < 0.2 and ln >= 1:
+                        # approximate boundaries (within / between / one-of / open-ended position objects, same default coordinates)
+                        from bounded.common import fuzzy_bounds
+                        a_, b_ = fuzzy_bounds(st, st + ln, ("within", "between", "oneof", "open")[int(fz * 20) % 4])
+                        locs.append(FeatureLocation(a_, b_, strand=sd))
+                    else:
+                        locs.append(FeatureLocation(st, st + ln, strand=sd))
                 else:
                     pieces = [FeatureLocation(st, n, strand=sd), FeatureLocation(0, st + ln - n, strand=sd)]
                     locs.extend(pieces if sd != -1 else pieces[::-1])
             loc = locs[0] if len(locs) == 1 else CompoundLocation(locs)
             full = names[j] + ":" + label
             quals = {"label": [full], "note": ["n1", "n2"]}
+            if frng.random() < 0.3:
+                # qualifier values that are not lists (records built in code rather than parsed): carried over as they are
+                quals["codon_start"] = 1
+                quals["product"] = "bare text"
+                quals["translation"] = ("M", "K")
             cites = None
             if refs and frng.random() < 0.6:
                 cs = sorted({frng.randrange(len(refs)) for _ in range(frng.choice([1, 1, 2]))})
@@ -253,6 +265,11 @@ def build(ns, spec, override=None):
                 img = [(tuple((offs[j] + ((st - a0) % n) + t) % len(exp) for t in range(ln)), sd) for (st, ln, sd) in parts]
                 expected_feats.append((full, ftype, img))
                 expected_cites[full] = cites or []
+        if spec["own_source"] and j % 2 == 1:
+            # the plasmid's own whole-record source feature, as exported by other tools: only some of the usual qualifiers
+            # (it reaches into the dropped part of the plasmid, so it is not inherited)
+            feats.append(SeqFeature(FeatureLocation(0, n, strand=1), type="source", id=names[j] + ":whole-source",
+                                    qualifiers=[{"organism": ["unidentified"]}, {"mol_type": ["genomic DNA"]}, {}, {"db_xref": ["taxon:32630"]}][(j + n) % 4]))
         if spec["own_source"] and j % 2 == 0:
             a0, L = p["inside"]
             bb = (a0 + L + 2 + r) % n
@@ -260,6 +277,21 @@ def build(ns, spec, override=None):
                 feats.append(SeqFeature(FeatureLocation(bb, bb + 3, strand=1), type="source", id=names[j] + ":own-source", qualifiers={
                     "organism": ["synthetic DNA construct"], "mol_type": ["other DNA"], "plasmid": ["ancestor-of-" + names[j]],
                     "label": ["source: ancestor-of-" + names[j]]}))
+        if refs and spec["feat_seed"] % 3 == 0:
+            # literature references bound to a region (GenBank `REFERENCE 1 (bases 3 to 9)`), also one crossing nothing special
+            refs[0].location = [FeatureLocation(min(2, n - 1), min(9, n))]
+            if len(refs) > 1:
+                refs[-1].location = [FeatureLocation(0, 5)]       # (the same bases in every input: a reference shared between inputs stays one reference)
+        if spec["feat_seed"] % 4 == 1:
+            # a feature of the common backbone, word for word the same in every input (same id, type, coordinates, qualifiers and
+            # citation text): placed where no plasmid retains it
+            a0, L = p["inside"]
+            lo_, hi_ = 1, 3
+            if all(not (((q_ - r - a0) % n) < L) for q_ in range(lo_, hi_)) and hi_ <= n:
+                q_ = {"label": ["common-ori"], "note": ["n1", "n2"]}
+                if refs:
+                    q_["citation"] = ["[1]"]
+                feats.append(SeqFeature(FeatureLocation(lo_, hi_, strand=1), type="rep_origin", id="common-ori", qualifiers=q_))
         ann = {"molecule_type": "DNA"}
         if spec["topology"] is not None:
             ann["topology"] = spec["topology"]
@@ -376,7 +408,8 @@ def oracle_features(sc, got, prod):
         got_sd = sorted({(sd if sd in (1, -1) else 0) for (pos, sd) in gparts})
         if want_pos != got_pos or want_sd != got_sd:
             pb.append("%s denotes %r in the product, expected %r" % (lab, gparts, img))
-        if gtype != ftype or gq.get("note") != ["n1", "n2"]:
+        bare_ok = ("codon_start" not in gq and "product" not in gq) or (gq.get("codon_start") == 1 and gq.get("product") == "bare text" and gq.get("translation") == ("M", "K"))
+        if gtype != ftype or gq.get("note") != ["n1", "n2"] or not bare_ok:
             pb.append("%s lost its type or qualifiers (%s, %r)" % (lab, gtype, dict(gq)))
     for lab in got_by:
         if lab not in exp_by:
@@ -458,7 +491,8 @@ def snapshot(ent):
     from . import common as bc
     rec = ent.record
     obs = bc.observe(rec)
-    obs["references"] = [refkey(r) for r in rec.annotations.get("references", [])]
+    obs["references"] = [refkey(r) + "@" + repr([(int(l_.start), int(l_.end)) for l_ in (getattr(r, "location", None) or [])])
+                         for r in rec.annotations.get("references", [])]
     obs["qual_values"] = [[(k, copy.deepcopy(v) if isinstance(v, list) and all(isinstance(x, str) for x in v) else
                             [type(x).__name__ for x in v] if isinstance(v, list) else repr(v)) for k, v in sorted(f.qualifiers.items())]
                           for f in rec.features]
@@ -543,10 +577,17 @@ def sweep(ctx, ns, which, count=None):
                 elif cit_of() != before:
                     pre.append("after a failing assembly (%s) the inputs' citation qualifiers changed: %r -> %r" % (
                         gf[0], [c_ for x_ in before for c_ in x_ if c_][:3], [c_ for x_ in cit_of() for c_ in x_ if c_][:3]))
+            cit0 = None
+            if which == "citations":
+                cit_all = lambda: [[[c_ if isinstance(c_, str) else "<%s object>" % type(c_).__name__ for c_ in f.qualifiers.get("citation", [])]
+                                    for f in x.record.features] for x in sc.ents]
+                cit0 = cit_all()
             got, prod, w = sc.run()
             evals += 1
             fn = dict(sequence=oracle_sequence, features=oracle_features, provenance=oracle_provenance, citations=oracle_citations)[which]
             pb = pre + fn(sc, got, prod)
+            if cit0 is not None and cit_all() != cit0:
+                pb.append("the inputs' own citation qualifiers changed: %r -> %r" % ([c_ for x_ in cit0 for c_ in x_ if c_][:3], [c_ for x_ in cit_all() for c_ in x_ if c_][:3]))
             if which == "features" and not pb and got[0] == "product" and sc.expected_feats:
                 # edit between two calls with the same wrappers: a feature of an input is relabelled (and one removed);
                 # the second product must show the records as they are *now*
